@@ -174,6 +174,16 @@ func runC03(ctx *core.Ctx, idx int) *core.Result {
 					default:
 						fill.Meta[m.Name] = g.Expr(2, nil)
 					}
+					if r.Intn(5) == 0 {
+						// the binding is a call spread over several lines, its last argument possibly a spread 'xs...'
+						v := fill.Meta[m.Name]
+						if !strings.HasSuffix(v, ")") || r.Intn(2) == 0 {
+							v = "mk(" + v + ", " + g.Ident() + ")"
+						}
+						if ml := gen.MultiLineCall(v, r.Intn(2) == 0); ml != "" && gen.PlantParses("expr", ml) {
+							fill.Meta[m.Name] = ml
+						}
+					}
 				}
 				t := c.Substitute(minus, fill)
 				if gen.PlantParses("expr", t) {
